@@ -189,7 +189,7 @@ theorem C02_sample_record_roundtrip (s : SampleImg) (dn pn : Smpl.Names.Name) (h
 
 /-- **C02 (a written sample, from the raw image).** Let the image hold, at the slots of sample `i`, the
 written directory and parameter records of `s`; let its FAT area parse; and let the raw FAT hold a
-chain `c` that starts at the sample's FAT entry (an allocatable cluster no FAT word points to).
+chain `c` that starts at the sample's FAT entry (an allocatable cluster; nothing is assumed about the rest of the table).
 Then the parser builds, for a partial slot that names sample `i`, exactly the node
 ⟨written record, clusters of `c` after the leading-cluster offset⟩; and if those clusters are all in
 the file and hold the written words `ws` (plus padding), the sample exports exactly the window its
@@ -201,7 +201,6 @@ theorem C02_written_sample (s : SampleImg) (dn pn : Smpl.Names.Name) (hok : s.Ok
     (fat : Fat) (hfat : parseFat (Img.ofBytes (A ++ (s.dirBytes ++ (B ++ (s.parBytes ++ C))))) = .ok fat)
     (c : List Nat) (hc : Smpl.Props.C07.RawChain (rawFat (A ++ (s.dirBytes ++ (B ++ (s.parBytes ++ C))))).toArray c)
     (hhead : c.headD 0 = s.fatEntry) (hc0 : 2 ≤ s.fatEntry) (hc0hi : s.fatEntry < FAT_N - 9)
-    (hnopred : ∀ y : Nat, (rawFat (A ++ (s.dirBytes ++ (B ++ (s.parBytes ++ C))))).toArray[y]? ≠ some s.fatEntry)
     (ws : List Nat) (pad : Bytes) (start n : Nat) (rev : Bool)
     (hfull : ∀ cl ∈ c.drop s.clusterTop, (clusterData (Img.ofBytes (A ++ (s.dirBytes ++ (B ++ (s.parBytes ++ C))))) cl).length = CLUSTER)
     (hcontent : chainContent (Img.ofBytes (A ++ (s.dirBytes ++ (B ++ (s.parBytes ++ C))))) (c.drop s.clusterTop) = enc ws ++ pad)
@@ -213,7 +212,7 @@ theorem C02_written_sample (s : SampleImg) (dn pn : Smpl.Names.Name) (hok : s.Ok
       = some (enc (wordWindow ws start n rev)) := by
   refine ⟨C02_sample_record_roundtrip s dn pn hok i hi A B C hA hB, ?_, ?_⟩
   · have := C02_clusters_from_image _ fat hfat c hc (by rw [hhead]; exact hc0) (by rw [hhead]; exact hc0hi)
-      (by rw [hhead]; exact hnopred) s.clusterTop
+      s.clusterTop
     rw [hhead] at this
     exact this
   · exact C02_sample _ ⟨s.toRec i dn pn, c.drop s.clusterTop⟩ ws pad hfull hcontent start n rev hwin hn hfit
